@@ -1,9 +1,10 @@
 use rand::Rng;
+use std::cell::RefCell;
 use std::fs;
 use std::io;
 use std::io::{BufRead, Read, Write};
 use std::process;
-use std::rc::Rc;
+use std::rc::{Rc, Weak};
 use std::thread;
 use std::time;
 use std::time::{SystemTime, UNIX_EPOCH};
@@ -388,6 +389,32 @@ fn builtin_time(args: Vec<Rc<Object>>) -> Result<Rc<Object>, String> {
     Ok(Rc::new(Object::Integer(seconds)))
 }
 
+thread_local! {
+    /// The writers handed out by open(). exit() flushes the ones that are
+    /// still alive, because process::exit() runs no destructors.
+    static OPEN_WRITERS: RefCell<Vec<Weak<FileHandle>>> = const { RefCell::new(Vec::new()) };
+}
+
+fn register_writer(handle: &Rc<FileHandle>) {
+    OPEN_WRITERS.with(|writers| {
+        let mut writers = writers.borrow_mut();
+        writers.retain(|w| w.strong_count() > 0);
+        writers.push(Rc::downgrade(handle));
+    });
+}
+
+fn flush_open_writers() {
+    OPEN_WRITERS.with(|writers| {
+        for handle in writers.borrow().iter().filter_map(|w| w.upgrade()) {
+            if let FileHandle::Writer(writer) = handle.as_ref() {
+                if let Ok(mut writer) = writer.try_borrow_mut() {
+                    let _ = writer.flush();
+                }
+            }
+        }
+    });
+}
+
 #[allow(unreachable_code)]
 fn builtin_exit(args: Vec<Rc<Object>>) -> Result<Rc<Object>, String> {
     if args.len() != 1 {
@@ -395,6 +422,7 @@ fn builtin_exit(args: Vec<Rc<Object>>) -> Result<Rc<Object>, String> {
     }
     match args[0].as_ref() {
         Object::Integer(code) => {
+            flush_open_writers();
             process::exit(*code as i32);
         }
         _ => return Err(String::from("unsupported argument")),
@@ -636,8 +664,9 @@ fn builtin_open(args: Vec<Rc<Object>>) -> Result<Rc<Object>, String> {
             match file {
                 Ok(file) => {
                     let writer = io::BufWriter::new(file);
-                    let handle = FileHandle::new_writer(writer);
-                    Ok(Rc::new(Object::File(Rc::new(handle))))
+                    let handle = Rc::new(FileHandle::new_writer(writer));
+                    register_writer(&handle);
+                    Ok(Rc::new(Object::File(handle)))
                 }
                 Err(e) => Ok(Rc::new(Object::Err(ErrorObj::IO(e)))),
             }
@@ -653,8 +682,9 @@ fn builtin_open(args: Vec<Rc<Object>>) -> Result<Rc<Object>, String> {
             match file {
                 Ok(file) => {
                     let writer = io::BufWriter::new(file);
-                    let handle = FileHandle::new_writer(writer);
-                    Ok(Rc::new(Object::File(Rc::new(handle))))
+                    let handle = Rc::new(FileHandle::new_writer(writer));
+                    register_writer(&handle);
+                    Ok(Rc::new(Object::File(handle)))
                 }
                 Err(e) => Ok(Rc::new(Object::Err(ErrorObj::IO(e)))),
             }
@@ -669,8 +699,9 @@ fn builtin_open(args: Vec<Rc<Object>>) -> Result<Rc<Object>, String> {
             match file {
                 Ok(file) => {
                     let writer = io::BufWriter::new(file);
-                    let handle = FileHandle::new_writer(writer);
-                    Ok(Rc::new(Object::File(Rc::new(handle))))
+                    let handle = Rc::new(FileHandle::new_writer(writer));
+                    register_writer(&handle);
+                    Ok(Rc::new(Object::File(handle)))
                 }
                 Err(e) => Ok(Rc::new(Object::Err(ErrorObj::IO(e)))),
             }
